@@ -142,8 +142,6 @@ def draw(c, rng):
         I = c["shape"][c["mode"]]
         rows = I if list(c["steps"]).count("M") > 1 else 2          # applied twice: the operand must fit its own output
         inp["m"] = _ints(rng, [rows, I])
-        am = (c["mode"] + 1) % len(c["shape"])
-        inp["g"] = _ints(rng, list(fs[am].shape))
     return inp
 
 
@@ -385,7 +383,8 @@ def _execute(c, inp):
                         ret = cp_tensor.cp_mode_dot(obj, inp["m"].copy(), c["mode"], copy=False)
                         obj = ret if ret is not None else obj
                     elif st == "A":
-                        obj.factors[(c["mode"] + 1) % len(c["shape"])] = inp["g"].copy()      # not through cp[1] = ...
+                        am = (c["mode"] + 1) % len(c["shape"])
+                        obj.factors[am] = 2.0 * np.asarray(obj.factors[am])     # a new array, not through cp[1] = ...
                     elif st == "F":
                         obj = cp_tensor.cp_flip_sign(obj)
                     w, fs = obj
